@@ -18,7 +18,7 @@ open GoUtils GoUtils.Cache
 theorem C16_protocol_in_source :
     Generated.Cache.ok = true ∧ Generated.Cache.immUploadsUnderPartName = true ∧
     Generated.Cache.immRenamesAfterVerifiedTransfer = true ∧ Generated.Cache.immListingIgnoresPartAndHash = true ∧
-    Generated.Cache.immStoreReturnsRenameError = true ∧
+    Generated.Cache.immStoreReturnsRenameError = true ∧ Generated.Cache.immCleanUsesOneListing = true ∧
     Generated.Cache.transferVerifiesHash = true ∧ Generated.Cache.mutStoreTransfersUnderLock = true ∧
     Generated.Cache.mutFetchUnpacksUnderLock = true := by decide
 
@@ -60,6 +60,23 @@ example : (immRun ImmState.init [.beginStore 1 10, .beginStore 2 20, .writePart 
 example : (mutRun MutState.init [.beginStore 10, .finishCopy 10, .writeHash, .beginStore 20, .overwrite 20 4]).bind
             (mutFetch (fun c => match c with | .complete v => v | .trunc v k => 1000 + v + k)) = none := by decide
 
+
+/-- "a completed Store is what the next Fetch returns", with cleanings running at the same time: CleanEntry is modelled
+    as ONE listing (everything complete but the newest is put on its list) followed by removals of the listed packages,
+    in any interleaving with the steps of other Stores and of other cleanings. Once a Store has completed, the next
+    Fetch returns its version whatever comes in between, short of another Store completing. -/
+theorem C16_immutable_store_survives_cleanings (es es' : List ImmEv) (s s1 s2 s3 : ImmState) (id v : Nat)
+    (h : immRun ImmState.init es = some s) (h1 : immStep s (.finishPart id v) = some s1)
+    (h2 : immStep s1 (.rename id) = some s2) (hn : ∀ e ∈ es', NoRename e) (h3 : immRun s2 es' = some s3) :
+    immFetch s3 = some (.complete v) :=
+  imm_store_survives es es' s s1 s2 s3 id v h h1 h2 hn h3
+
+/-- non-vacuity: a cleaning lists while version 20 is still uploading, the Store of 20 completes, and only then the
+    cleaning removes what it listed (version 10 is NOT on its list: it was the newest) — Fetch returns 20; with a third,
+    older package on the list the removals happen and 20 stays -/
+example : (immRun ImmState.init [.beginStore 1 10, .writePart 1 10 4, .finishPart 1 10, .rename 1,
+    .beginStore 3 30, .writePart 3 30 1, .finishPart 3 30, .rename 3,
+    .beginStore 2 20, .writePart 2 20 3, .cleanList, .finishPart 2 20, .rename 2, .cleanRemove 1 1]).bind immFetch = some (.complete 20) := by decide
 
 /-- "a completed Store is what the next Fetch returns", mutable cache: from any state of the entry and after
     any earlier events, once the copy of version `v` has finished and the side file has been rewritten, Fetch
